@@ -115,6 +115,17 @@ def _glob(pathname, *a, **k):
     return res
 
 
+_vmtime = {}
+
+
+def _getmtime(path):
+    _fs_point('getmtime', path)
+    t = _vmtime.get(os.path.abspath(os.fspath(path)))
+    if t is not None and _real['exists'](path):
+        return t
+    return _real['getmtime'](path)
+
+
 def _mk_fs(name, op=None):
     def fs(path, *a, **k):
         _fs_point(op or name, path)
@@ -427,6 +438,11 @@ class SimFile:
             sh.closed = True
             if mode != 'r':
                 w.no_abort_depth -= 1
+                # modification time as the file system would record it: the clock of the node whose rank
+                # closes last (under clock skew not ordered like the simulation times)
+                if len(_vmtime) > 20000:
+                    _vmtime.clear()
+                _vmtime[os.path.abspath(sh.name)] = w.clock(simworld.current()[1])
             if bad is not None:
                 raise bad
             return None
@@ -554,6 +570,7 @@ def install(repo=None):
     for nm in ('isfile', 'getsize', 'getmtime'):
         _real[nm] = getattr(os.path, nm)
         setattr(os.path, nm, _mk_fs(nm))
+    os.path.getmtime = _getmtime
     os.mkdir = _mkdir
     os.path.isdir = _isdir
     os.path.exists = _exists
